@@ -772,6 +772,39 @@ impl<T: Transport + 'static> SyncEngine<T> {
             if task_index == deletions_first && !handles.is_empty() {
                 results.extend(futures::future::join_all(handles.drain(..)).await);
             }
+            // A destination link that could not be replaced by the directory the source has
+            // there (its task failed) is still a link: nothing is written below it, the path
+            // would lead through the link, possibly into the source tree itself.
+            if !self.dry_run && task_index >= deletions_first {
+                let unreplaced = replaced_links.iter().find(|link| {
+                    task.dest_path != **link
+                        && task.dest_path.starts_with(link)
+                        && std::fs::symlink_metadata(link)
+                            .map(|m| m.file_type().is_symlink())
+                            .unwrap_or(false)
+                });
+                if let Some(link) = unreplaced {
+                    let msg = format!(
+                        "{} is still a symbolic link (replacing it by a directory failed), not writing through it",
+                        link.display()
+                    );
+                    let action = match task.action {
+                        SyncAction::Create => "create",
+                        SyncAction::Update => "update",
+                        SyncAction::Delete => "delete",
+                        SyncAction::Skip => "skip",
+                    };
+                    stats.lock().unwrap().errors.push(SyncError {
+                        path: task.dest_path.clone(),
+                        error: msg.clone(),
+                        action: action.to_string(),
+                    });
+                    results.push(Ok(Err(crate::error::SyncError::Io(
+                        std::io::Error::other(msg),
+                    ))));
+                    continue;
+                }
+            }
             let transport = Arc::clone(&self.transport);
             let dry_run = self.dry_run;
             let diff_mode = self.diff_mode;
